@@ -9,6 +9,8 @@ import (
 	"runtime/debug"
 	"strings"
 	"sync"
+	"sync/atomic"
+	"time"
 
 	"github.com/elk-language/elk"
 	"github.com/elk-language/elk/env"
@@ -22,6 +24,32 @@ func init() {
 	env.ELKPATH = "/repo"
 	if p := os.Getenv("VERIF_ELKPATH"); p != "" {
 		env.ELKPATH = p
+	}
+}
+
+// A program may return while tasks it started but never awaited are still running on its pool. The real
+// `elk run` process would exit at that point; in-process the stragglers would race with the next case's
+// elk.InitGlobalEnvironment() (a harness artefact, not a defect). The verif async hook counts tasks in flight
+// and RunElk waits (bounded, no verdict depends on it) until the pool is quiet.
+var poolBusy atomic.Int64
+
+func baseAsyncHook(point string, _ *vm.Promise, _ *vm.Promise, _ *vm.Thread) {
+	switch point {
+	case "worker:dequeue":
+		poolBusy.Add(1)
+	case "worker:done":
+		poolBusy.Add(-1)
+	}
+}
+
+func init() { vm.VerifAsyncHook = baseAsyncHook }
+
+func waitPoolQuiet() {
+	for i := 0; i < 60000 && poolBusy.Load() > 0; i++ { // up to a minute: on a loaded machine a runnable worker may not be scheduled for seconds
+		time.Sleep(time.Millisecond)
+	}
+	if poolBusy.Load() != 0 {
+		poolBusy.Store(0) // a task that never finishes must not slow every later case down
 	}
 }
 
@@ -121,7 +149,10 @@ func RunElk(source string, o *ElkOpts) (res *ElkResult) {
 	if o.KeepThread {
 		res.Pool = tp
 	} else {
-		defer tp.Close()
+		defer func() {
+			tp.Close()
+			waitPoolQuiet()
+		}()
 	}
 	v := vm.New(vm.WithStdout(stdout), vm.WithStderr(stderr), vm.WithThreadPool(tp), vm.WithAborter(aborter))
 	defer func() {
